@@ -138,14 +138,16 @@ void sequences(vf::Ctx& c, const char* tname, int depth, size_t firstOp) {
   std::vector<P> pts(4);
   for (size_t d = 0; d < DIM; ++d) { pts[0][d] = (S)(-1.3 + 0.4 * d); pts[1][d] = (S)(2.1 - 0.7 * d); pts[2][d] = (d == 0) ? (S)-1.3 : (S)1.9; pts[3][d] = (S)(0.125 + 0.25 * d); }
   // ops: 0-3 setOrigin(p), 4-7 setEnd(p), 8-11 cast(p), 12-27 cast(o,e), 28 cast(), 29 next(), 30/31 setGridIndexMapping(grid A / grid B)
-  const int NOPS = 32;
-  auto opname = [&](int op) { char b[64]; if (op < 4) snprintf(b, 64, "setOriginPoint(p%d)", op); else if (op < 8) snprintf(b, 64, "setEndPoint(p%d)", op - 4); else if (op < 12) snprintf(b, 64, "cast(p%d)", op - 8); else if (op < 28) snprintf(b, 64, "cast(p%d,p%d)", (op - 12) / 4, (op - 12) % 4); else if (op == 28) snprintf(b, 64, "cast()"); else if (op == 29) snprintf(b, 64, "next()"); else snprintf(b, 64, "setGridIndexMapping(grid%c)", op == 30 ? 'A' : 'B'); return std::string(b); };
+  const int NOPS = 34;   // 32: assign the caster to another long-lived caster (bound to the other grid, with a past) and continue with that one; 33: continue with a copy-constructed caster
+  auto opname = [&](int op) { char b[64]; if (op < 4) snprintf(b, 64, "setOriginPoint(p%d)", op); else if (op < 8) snprintf(b, 64, "setEndPoint(p%d)", op - 4); else if (op < 12) snprintf(b, 64, "cast(p%d)", op - 8); else if (op < 28) snprintf(b, 64, "cast(p%d,p%d)", (op - 12) / 4, (op - 12) % 4); else if (op == 28) snprintf(b, 64, "cast()"); else if (op == 29) snprintf(b, 64, "next()"); else if (op < 32) snprintf(b, 64, "setGridIndexMapping(grid%c)", op == 30 ? 'A' : 'B'); else snprintf(b, 64, "%s", op == 32 ? "other = caster; continue with other" : "continue with a copy-constructed caster"); return std::string(b); };
   uint64_t total = 1; for (int i = 1; i < depth; ++i) total *= NOPS;
   std::unordered_set<uint64_t> states;
   std::vector<int> seq(depth); seq[0] = (int)firstOp;
   for (uint64_t k = 0; k < total; ++k) {
     uint64_t r = k; for (int i = 1; i < depth; ++i) { seq[i] = r % NOPS; r /= NOPS; }
-    RayCasting<S, DIM> rc(&g);
+    std::unique_ptr<RayCasting<S, DIM>> rcp(new RayCasting<S, DIM>(&g)), otherp(new RayCasting<S, DIM>(&gB));
+    (void)otherp->cast(pts[1], pts[0]);
+#define rc (*rcp)
     GridIndexMapping<S, DIM>* cur = &g; const GridCfg* curCfg = &gc;
     bool originSet = false; P curO = P::Zero();
     for (int i = 0; i < depth; ++i) {
@@ -161,7 +163,9 @@ void sequences(vf::Ctx& c, const char* tname, int depth, size_t firstOp) {
       else if (op < 28) { o = pts[(op - 12) / 4]; e = pts[(op - 12) % 4]; got = rc.cast(o, e); originSet = true; curO = o; isCast = true; }
       else if (op == 28) { if (rc.computeRayNumberOfCells() < 100000) (void)rc.cast(); }
       else if (op == 29) { I cell = rc.getOriginPointIndexes(); rc.next(cell); }
-      else { cur = op == 30 ? &g : &gB; curCfg = op == 30 ? &gc : &gcB; rc.setGridIndexMapping(cur); originSet = false; }   // origin / end indexes belong to the previous grid: an origin must be set again
+      else if (op < 32) { cur = op == 30 ? &g : &gB; curCfg = op == 30 ? &gc : &gcB; rc.setGridIndexMapping(cur); originSet = false; }   // origin / end indexes belong to the previous grid: an origin must be set again
+      else if (op == 32) { *otherp = *rcp; std::swap(rcp, otherp); }   // the copy keeps grid, origin and end of the original
+      else { std::unique_ptr<RayCasting<S, DIM>> cp(new RayCasting<S, DIM>(*rcp)); otherp = std::move(rcp); rcp = std::move(cp); }
       if (isCast) {
         c.eval(); if (i > 0) c.nontrivial();
         RayCasting<S, DIM> fresh(cur);
@@ -177,6 +181,7 @@ void sequences(vf::Ctx& c, const char* tname, int depth, size_t firstOp) {
         double a = rc.rayTMax_[d], b = rc.rayTDelta_[d], oo = rc.rayOriginPoint_[d], ee = rc.rayEndPoint_[d]; uint64_t u; memcpy(&u, &a, 8); h = vf::mix64(h, u); memcpy(&u, &b, 8); h = vf::mix64(h, u); memcpy(&u, &oo, 8); h = vf::mix64(h, u); memcpy(&u, &ee, 8); h = vf::mix64(h, u); }
       if (states.insert(h).second) c.states();
     }
+#undef rc
     c.traces();
     if (c.want_sample() && k == total / 3) { std::vector<std::string> h; for (int j = 0; j < depth; ++j) h.push_back(opname(seq[j])); c.sample(vf::JO().str("type", tname).strs("sequence", h).done()); }
     if (c.c.violations > 20) return;
@@ -197,7 +202,7 @@ const std::vector<Case>& cases(bool th) {
     bool is3 = t & 1; int ng = is3 ? n3 : n2;
     for (int gI = 0; gI < ng; ++gI) { size_t nb = 16; for (size_t b = 0; b < nb; ++b) v.push_back({0, t, gI, b, nb, 0, 0}); }
   }
-  for (int t = 0; t < 4; ++t) for (size_t f = 0; f < 32; ++f) v.push_back({1, t, 0, 0, 0, th ? 4 : 3, f});
+  for (int t = 0; t < 4; ++t) for (size_t f = 0; f < 34; ++f) v.push_back({1, t, 0, 0, 0, th ? 4 : 3, f});
   return v;
 }
 const char* kT[] = {"double2", "double3", "float2", "float3"};
@@ -238,7 +243,7 @@ std::string vf_describe(const std::string& tier) {
   o.str("points", "2D: cells {0,1,N/4,N/2,N-2,N-1} x sub-cell offsets {-1/2 (border),-1/4,0 (centre),+1/4} per axis; 3D: cells {0,N/2,N-1} x {-1/2,0,+1/4}; plus border -+ max(res/2^17, 4ulp) for cells {1,N/2} (3D: N/2); all origin x end pairs (generic, axis-aligned, diagonal through corners, coincident)");
   o.str("fresh_caster_forms", "constructed on the grid / default-constructed then setGridIndexMapping / used on another grid then moved (rotating over the origin-end pairs)");
   o.str("tolerance", "(cells visited + 4) ulp(max(range,|coord|)) + 4 ulp(|coord|): worst-case accumulation of tMax += tDelta");
-  o.i("sequence_depth", th ? 4 : 3).str("sequence_ops", "setOriginPoint(p0..3), setEndPoint(p0..3), cast(p), cast(p,q), cast(), next(), setGridIndexMapping(A|B) = 32 ops (two grids of different resolution); all sequences, all four instantiations; differential oracle vs fresh caster + full geometric oracle");
+  o.i("sequence_depth", th ? 4 : 3).str("sequence_ops", "setOriginPoint(p0..3), setEndPoint(p0..3), cast(p), cast(p,q), cast(), next(), setGridIndexMapping(A|B), assign to another long-lived caster and continue with it, continue with a copy = 34 ops (two grids of different resolution); all sequences, all four instantiations; differential oracle vs fresh caster + full geometric oracle");
   return o.done();
 }
 
